@@ -6,7 +6,7 @@ from checks import exec_common, exec_findings
 
 
 def run(ctx):
-    exec_common.run_property(ctx, "C07", ['timeout', 'timeout', 'mixed', 'memleak'], 300, 3000, classify=exec_findings.classify)
+    exec_common.run_property(ctx, "C07", ['timeout', 'timeout', 'mixed', 'memleak', 'stalled_manager'], 300, 3000, classify=exec_findings.classify)
 
 
 if __name__ == "__main__":
